@@ -125,7 +125,7 @@ type Timeouter interface {
 	TimeoutObs(c interface{}) interface{}
 }
 
-const caseTimeout = 90 * time.Second
+const caseTimeout = 180 * time.Second
 
 var props = map[string]Prop{}
 
